@@ -49,6 +49,8 @@ def build(term, W, cache=None):
         return OT.normalize_type(typing.Literal[tuple(term[1:])], None)
     if k == "tuple":
         return OT.normalize_type(tuple[tuple(build(t, W, cache) for t in term[1:])], None)
+    if k == "tupvar":
+        return OT.normalize_type(tuple[build(term[1], W, cache), ...], None)      # homogeneous, any length
     if k == "Dep":
         from ovld.dependent import Dependent
 
@@ -108,6 +110,8 @@ def term_str(term):
         return "Literal[" + ", ".join(map(repr, term[1:])) + "]"
     if k == "tuple":
         return "tuple[" + ", ".join(map(term_str, term[1:])) + "]"
+    if k == "tupvar":
+        return f"tuple[{term_str(term[1])}, ...]"
     if k == "Dep":
         return f"Dependent[{term_str(term[1])}, p{term[2]}]"
     return repr(term)
